@@ -83,7 +83,8 @@ impl<'de> ObjectJsonIter<'de> {
     pub(crate) fn new_inner(input: JsonSlice<'de>) -> Self {
         let owns_input = matches!(input, JsonSlice::FastStr(_));
         Self {
-            parser: Parser::new(Read::new_in(input, false)),
+            parser: Parser::new(Read::new_in(input, false))
+                .with_config(crate::config::DeserializeCfg::from_features()),
             strbuf: Vec::with_capacity(DEFAULT_KEY_BUF_CAPACITY),
             first: true,
             ending: false,
@@ -98,7 +99,8 @@ impl<'de> ObjectJsonIter<'de> {
             .unwrap_or_default();
 
         Self {
-            parser: Parser::new(Read::new_in(input.to_json_slice(), validate_utf8)),
+            parser: Parser::new(Read::new_in(input.to_json_slice(), validate_utf8))
+                .with_config(crate::config::DeserializeCfg::from_features()),
             strbuf: Vec::with_capacity(DEFAULT_KEY_BUF_CAPACITY),
             first: true,
             ending: false,
@@ -146,7 +148,8 @@ impl<'de> ArrayJsonIter<'de> {
     // input is inner json, expected always be validated and well-formed
     pub(crate) fn new_inner(input: JsonSlice<'de>) -> Self {
         Self {
-            parser: Parser::new(Read::new_in(input, false)),
+            parser: Parser::new(Read::new_in(input, false))
+                .with_config(crate::config::DeserializeCfg::from_features()),
             first: true,
             ending: false,
             skip_strict: false,
@@ -159,7 +162,8 @@ impl<'de> ArrayJsonIter<'de> {
             .unwrap_or_default();
 
         Self {
-            parser: Parser::new(Read::new_in(input.to_json_slice(), validate_utf8)),
+            parser: Parser::new(Read::new_in(input.to_json_slice(), validate_utf8))
+                .with_config(crate::config::DeserializeCfg::from_features()),
             first: true,
             ending: false,
             skip_strict,
